@@ -255,7 +255,7 @@ fn g_secs(c: &mut Ctx) -> u32 {
 fn g_frac(c: &mut Ctx, leap_ok: bool) -> u32 {
     let f = match c.rng.below(3) {
         0 => *c.rng.pick(&[0u32, 1, 2, 499_999_999, 500_000_000, 999_999_998, 999_999_999]),
-        _ => c.rng.below(1_000_000_000) as u32,
+        _ => c.rng.nanos(),
     };
     if leap_ok && c.rng.chance(1, 10) {
         f + 1_000_000_000
@@ -615,8 +615,8 @@ pub fn run(c: &mut Ctx) {
             let (ss, nn): (u64, u32) = match c.rng.below(5) {
                 0 => (ns.unsigned_abs().div_euclid(NS as u128) as u64, (ns.unsigned_abs() % NS as u128) as u32),
                 1 => ((TD_MAX_S as u64).wrapping_add(c.rng.range(-1, 1) as u64), *c.rng.pick(&[0u32, 806_999_999, 807_000_000, 807_000_001, 999_999_999])),
-                2 => (*c.rng.pick(&[u64::MAX, u64::MAX - 1, i64::MAX as u64, i64::MAX as u64 + 1, 1 << 32, 0]), c.rng.below(1_000_000_000) as u32),
-                _ => (c.rng.below(200_000), c.rng.below(1_000_000_000) as u32),
+                2 => (*c.rng.pick(&[u64::MAX, u64::MAX - 1, i64::MAX as u64, i64::MAX as u64 + 1, 1 << 32, 0]), c.rng.nanos()),
+                _ => (c.rng.below(200_000), c.rng.nanos()),
             };
             let sd = Duration::new(ss, nn);
             let op = guard(|| if add { dt + sd } else { dt - sd });
@@ -749,8 +749,8 @@ pub fn run(c: &mut Ctx) {
             let (ss, nn): (u64, u32) = match c.rng.below(4) {
                 0 => (ns.unsigned_abs().div_euclid(NS as u128) as u64, (ns.unsigned_abs() % NS as u128) as u32),
                 1 => ((TD_MAX_S as u64).wrapping_add(c.rng.range(-1, 1) as u64), *c.rng.pick(&[0u32, 807_000_000, 807_000_001])),
-                2 => (u64::MAX - c.rng.below(2), c.rng.below(1_000_000_000) as u32),
-                _ => (c.rng.below(200_000), c.rng.below(1_000_000_000) as u32),
+                2 => (u64::MAX - c.rng.below(2), c.rng.nanos()),
+                _ => (c.rng.below(200_000), c.rng.nanos()),
             };
             let sd = Duration::new(ss, nn);
             let op = guard(|| {
